@@ -15,17 +15,18 @@ pub(crate) mod __verif_pruning {
         while j < ARR_N { if j < i && c.keys[j][0] == c.keys[i][0] && c.ts[j] <= t { ok = false; } j += 1; }
         ok
     }
-    fn visible(c: &ArrCursor, t: u64, i: usize) -> bool { newest_le(c, t, i) && c.has_val[i] }
-    fn plen(c: &ArrCursor, t: u64) -> isize { let mut k = 0; let mut i = 0; while i < ARR_N { if visible(c, t, i) { k += 1; } i += 1; } k }
-    fn rank(c: &ArrCursor, t: u64, i: usize) -> isize { let mut k = 0; let mut j = 0; while j < ARR_N { if j < i && visible(c, t, j) { k += 1; } j += 1; } k }
-    fn nth(c: &ArrCursor, t: u64, r: isize) -> usize { let mut k = 0; let mut res = ARR_N; let mut j = 0; while j < ARR_N { if visible(c, t, j) { if k == r && res == ARR_N { res = j; } k += 1; } j += 1; } res }
+    // `keep` = PruningCursor::with_tombstones: the newest version is yielded even when it is a tombstone
+    fn visible(c: &ArrCursor, t: u64, i: usize, keep: bool) -> bool { newest_le(c, t, i) && (keep || c.has_val[i]) }
+    fn plen(c: &ArrCursor, t: u64, keep: bool) -> isize { let mut k = 0; let mut i = 0; while i < ARR_N { if visible(c, t, i, keep) { k += 1; } i += 1; } k }
+    fn rank(c: &ArrCursor, t: u64, i: usize, keep: bool) -> isize { let mut k = 0; let mut j = 0; while j < ARR_N { if j < i && visible(c, t, j, keep) { k += 1; } j += 1; } k }
+    fn nth(c: &ArrCursor, t: u64, r: isize, keep: bool) -> usize { let mut k = 0; let mut res = ARR_N; let mut j = 0; while j < ARR_N { if visible(c, t, j, keep) { if k == r && res == ARR_N { res = j; } k += 1; } j += 1; } res }
 
     fn view(pc: &PruningCursor<ArrCursor>) -> Option<isize> {
         let ch = &pc.cursor; let c = ch.pos; let n = ch.n as isize;
         if c == -1 { if pc.skip_key.is_none() { Some(-1) } else { None } }
-        else if c == n { Some(plen(ch, pc.timestamp)) }
-        else if c >= 0 && c < n && visible(ch, pc.timestamp, c as usize) {
-            match &pc.skip_key { Some(k) => if k.len() == 1 && k[0] == ch.keys[c as usize][0] { Some(rank(ch, pc.timestamp, c as usize)) } else { None }, None => None }
+        else if c == n { Some(plen(ch, pc.timestamp, pc.retain_tombstones)) }
+        else if c >= 0 && c < n && visible(ch, pc.timestamp, c as usize, pc.retain_tombstones) {
+            match &pc.skip_key { Some(k) => if k.len() == 1 && k[0] == ch.keys[c as usize][0] { Some(rank(ch, pc.timestamp, c as usize, pc.retain_tombstones)) } else { None }, None => None }
         } else { None }
     }
     fn any_state() -> (PruningCursor<ArrCursor>, isize) {
@@ -33,17 +34,17 @@ pub(crate) mod __verif_pruning {
         let q: isize = kani::any(); kani::assume(q >= -1 && q <= ch.n as isize); ch.pos = q;
         let t: u64 = kani::any(); kani::assume(t <= 8);
         let skip_key = if kani::any() { None } else { let k: u8 = kani::any(); kani::assume(k <= 6); let mut v: Vec<u8> = Vec::with_capacity(1); v.push(k); Some(v) };
-        let pc = PruningCursor { cursor: ch, timestamp: t, skip_key };
+        let pc = PruningCursor { cursor: ch, timestamp: t, skip_key, retain_tombstones: kani::any() };
         let r = match view(&pc) { Some(r) => r, None => { kani::assume(false); 0 } };
         (pc, r)
     }
     fn check_at(pc: &PruningCursor<ArrCursor>, r: isize) {
         let ch = &pc.cursor;
         assert!(view(pc) == Some(r));
-        if r >= 0 && r < plen(ch, pc.timestamp) {
-            let i = nth(ch, pc.timestamp, r);
+        if r >= 0 && r < plen(ch, pc.timestamp, pc.retain_tombstones) {
+            let i = nth(ch, pc.timestamp, r, pc.retain_tombstones);
             match pc.key() { Some(k) => { assert!(k.key[0] == ch.keys[i][0] && k.timestamp == ch.ts[i]); } None => { assert!(false); } }
-            match pc.value() { Some(v) => { assert!(v[0] == ch.vals[i][0]); } None => { assert!(false); } }
+            match pc.value() { Some(v) => { assert!(ch.has_val[i] && v[0] == ch.vals[i][0]); } None => { assert!(pc.retain_tombstones && !ch.has_val[i]); } }
         } else { assert!(pc.key().is_none() && pc.value().is_none()); }
     }
     fn ok(r: Result<(), SError>) { match r { Ok(()) => {}, Err(e) => { core::mem::forget(e); assert!(false); } } }
@@ -53,7 +54,7 @@ pub(crate) mod __verif_pruning {
     #[kani::unwind(6)]
     fn pruning_next() {
         let (mut pc, r) = any_state();
-        let len = plen(&pc.cursor, pc.timestamp);
+        let len = plen(&pc.cursor, pc.timestamp, pc.retain_tombstones);
         ok(pc.next());
         check_at(&pc, if r < len { r + 1 } else { len });
         kani::cover!(r == 0 && len == 2);
@@ -86,9 +87,9 @@ pub(crate) mod __verif_pruning {
         let (mut pc, _r) = any_state();
         let k: [u8; 1] = kani::any(); kani::assume(k[0] <= 6);
         ok(pc.seek(&k[..]));
-        let len = plen(&pc.cursor, pc.timestamp);
+        let len = plen(&pc.cursor, pc.timestamp, pc.retain_tombstones);
         let mut want = len; let mut j = ARR_N;
-        while j > 0 { j -= 1; if visible(&pc.cursor, pc.timestamp, j) && pc.cursor.keys[j][0] >= k[0] { want = rank(&pc.cursor, pc.timestamp, j); } }
+        while j > 0 { j -= 1; if visible(&pc.cursor, pc.timestamp, j, pc.retain_tombstones) && pc.cursor.keys[j][0] >= k[0] { want = rank(&pc.cursor, pc.timestamp, j, pc.retain_tombstones); } }
         check_at(&pc, want);
         kani::cover!(want < len && want > 0);
         core::mem::forget(pc);
@@ -99,13 +100,14 @@ pub(crate) mod __verif_pruning {
     #[kani::unwind(6)]
     fn pruning_ends_and_new() {
         let (mut pc, _r) = any_state();
-        let len = plen(&pc.cursor, pc.timestamp);
+        let len = plen(&pc.cursor, pc.timestamp, pc.retain_tombstones);
         if kani::any() { ok(pc.seek_to_first()); check_at(&pc, -1); } else { ok(pc.seek_to_last()); check_at(&pc, len); }
         core::mem::forget(pc);
         let mut ch = ArrCursor::any_sorted();
         let q: isize = kani::any(); kani::assume(q >= -1 && q <= ch.n as isize); ch.pos = q;
         let t: u64 = kani::any(); kani::assume(t <= 8);
-        match PruningCursor::new(ch, t) { Ok(p2) => { check_at(&p2, -1); core::mem::forget(p2); } Err(e) => { core::mem::forget(e); assert!(false); } }
+        let r2 = if kani::any() { PruningCursor::new(ch, t) } else { PruningCursor::with_tombstones(ch, t) };
+        match r2 { Ok(p2) => { check_at(&p2, -1); core::mem::forget(p2); } Err(e) => { core::mem::forget(e); assert!(false); } }
         kani::cover!(len == 2);
     }
 }
